@@ -4,7 +4,7 @@ cache), C07 (result reflects the outcome, timeout enforced), C08 (call-site bind
 Ghost monitor of DESIGN Appendix A.2 (invoke / teardown / result / on_error).  `parse_params`, `Context(...)`, the dependency
 graph and the task function are used through contracts; `taskiq_dependencies` is external (assumed contract: async_ctx keeps a
 REFERENCE to the initial cache and reads it at later suspension points, hence `requires fresh(cache)`)."""
-import ast
+import ast, re
 from z3 import *
 from pyvc.core import *
 
@@ -25,6 +25,22 @@ TRUSTED = [
 
 def generate(src):
     fdef = src.func(REL, 'Receiver.run_task')
+    # ---- role binding: locals are identified by what they are assigned from / used for, not by their names
+    def assigned_from(pred, what):
+        for n_ in ast.walk(fdef):
+            if isinstance(n_, ast.Assign) and len(n_.targets) == 1 and isinstance(n_.targets[0], ast.Name):
+                v_ = n_.value.value if isinstance(n_.value, ast.Await) else n_.value
+                if isinstance(v_, ast.Call) and pred(ast.unparse(v_.func)): return n_.targets[0].id
+        raise Unsupported(f"run_task: no local is assigned from {what}")
+    GRAPH = assigned_from(lambda f: f == 'self.dependency_graphs.get', 'self.dependency_graphs.get(...)')
+    DEPCTX = assigned_from(lambda f: f == GRAPH + '.async_ctx', GRAPH + '.async_ctx(...)')
+    handlers_as = {h_.name for n_ in ast.walk(fdef) if isinstance(n_, ast.Try) for h_ in n_.handlers if h_.name}
+    found = {n_.targets[0].id for n_ in ast.walk(fdef) if isinstance(n_, ast.Assign) and isinstance(n_.targets[0], ast.Name) and isinstance(n_.value, ast.Name) and n_.value.id in handlers_as}
+    if len(found) != 1: raise Unsupported("run_task: expected exactly one local that records the caught exception")
+    FOUND = found.pop()
+    tcalls = [n_ for n_ in ast.walk(fdef) if isinstance(n_, ast.Call) and ast.unparse(n_.func) == 'target' and any(k_.arg is None for k_ in n_.keywords)]
+    if len(tcalls) != 1 or not isinstance([k_ for k_ in tcalls[0].keywords if k_.arg is None][0].value, ast.Name): raise Unsupported("run_task: expected one call target(*args, **<kwargs local>)")
+    KWARGS = [k_ for k_ in tcalls[0].keywords if k_.arg is None][0].value.id
     for n, p in [('TaskiqError', 'Exception'), ('NoResultError', 'TaskiqError')]: CLS.add(n, p)
     propagate = Bool('propagate_exceptions'); is_coro_fn = Bool('target_is_coroutine_function'); has_graph = Bool('has_dependency_graph')
     over = Function('over_on_error', IntSort(), BoolSort()); hook_async = Function('on_error_is_async', IntSort(), BoolSort()); NMW = Int('n_middlewares')
@@ -152,7 +168,7 @@ def generate(src):
         for f in ('is_err', 'return_value', 'error', 'labels'): h.fld['res_' + f] = Store(h.field('res_' + f), a, to_val(kw[f]))
         setG(st, result_built=BoolVal(True), result_addr=a); return k(st, PyObj(a, 'result'))
     def h_on_error(ex, st, e, recv, args, kw, k, K):
-        i = st.env.get('__i')
+        i = G(st).get('__i')
         if i is None or len(args) != 3: raise Unsupported("middleware.on_error call shape / outside its loop")
         def eff(st2, k2, K2):
             g = G(st2)
@@ -171,11 +187,12 @@ def generate(src):
         def inv(sx, ix): return ForAll([j], G(sx)['fired'][j] == And(0 <= j, j < ix, over(j)))
         ob(st, "run_task/on_error-loop/inv-entry  [C10]", inv(st, IntVal(0)))
         it = st.fork(); i = fresh('i', IntSort()); setG(it, fired=fresh('fired', I2B)); it.pc += [i >= 0, i < NMW]; it.facts.append(inv(it, i))
-        it.env = dict(it.env); it.env['__i'] = i; it.env['middleware'] = PyObj(fresh('mw', IntSort()), 'mw')
+        if not isinstance(s.target, ast.Name): raise Unsupported('middleware loop target')
+        setG(it, __i=i); it.env = dict(it.env); it.env[s.target.id] = PyObj(fresh('mw', IntSort()), 'mw')
         def back(s3): ob(s3, "run_task/on_error-loop/inv-preserved: overridden hooks fire in registration order, each once  [C10]", inv(s3, i + 1))
         K2 = dict(K); K2['cont'] = back; K2['brk'] = lambda s3: ob(s3, "run_task/on_error-loop: no early exit  [C10]", BoolVal(False))
         ex.block(s.body, it, back, K2)
-        out = st.fork(); setG(out, fired=fresh('fired', I2B)); out.facts.append(inv(out, NMW)); return k(out)
+        out = st.fork(); setG(out, fired=fresh('fired', I2B), __i=None); out.facts.append(inv(out, NMW)); return k(out)
 
     class Ex(Exec):
         def ev_Attribute(self, e, st, k, K):
@@ -188,14 +205,14 @@ def generate(src):
             if p == 'self.propagate_exceptions': return k(st, PyBool(propagate))
             if p == 'self.validate_params': return k(st, PyBool(validate_params))
             if p in ('self.known_tasks', 'message.task_name', 'message.task_id', 'self.broker.state', 'self.broker.dependency_overrides', 'self.executor',
-                     'found_exception.__traceback__', 'self.broker.middlewares', 'self.task_signatures', 'self.task_hints', 'self.dependency_graphs'): return k(st, fresh(p.replace('.', '_')))
+                     FOUND + '.__traceback__', 'self.broker.middlewares', 'self.task_signatures', 'self.task_hints', 'self.dependency_graphs'): return k(st, fresh(p.replace('.', '_')))
             if p.startswith('self.sem') or 'queue' in p:
                 ob(st, "run_task/frame: no access to the receiver's semaphores or hand-over queue  [C03]", BoolVal(False)); return k(st, fresh('forbidden'))
             return super().ev_Attribute(e, st, k, K)
         def ev_Compare(self, e, st, k, K):
             u = ast.unparse(e)
-            if u == 'middleware.__class__.on_error != TaskiqMiddleware.on_error': return k(st, PyBool(over(st.env['__i'])))
-            if u == 'middleware.__class__.on_error == TaskiqMiddleware.on_error': return k(st, PyBool(Not(over(st.env['__i']))))
+            m_ = re.match(r"^(\w+)\.__class__\.on_error (!=|==) TaskiqMiddleware\.on_error$", u)
+            if m_ and G(st).get('__i') is not None: return k(st, PyBool(over(G(st)['__i']) if m_.group(2) == '!=' else Not(over(G(st)['__i']))))
             if u == 'message.task_name not in self.known_tasks': return k(st, PyBool(fresh('unknown_task', BoolSort())))
             if len(e.ops) == 1 and isinstance(e.ops[0], (ast.In, ast.NotIn)) and ast.unparse(e.comparators[0]).startswith('self.'):
                 return k(st, PyBool(fresh('membership_in_' + ast.unparse(e.comparators[0]).replace('.', '_'), BoolSort())))      # membership in receiver-held bookkeeping: unconstrained
@@ -214,22 +231,22 @@ def generate(src):
             if name == 'target': return h_target
             return super().find_handler(name, recv)
         def assign(self, tgt, v, st, k, K):
-            if isinstance(tgt, ast.Name) and tgt.id == 'found_exception': setG(st, found_exc=to_val(v))
-            if isinstance(tgt, ast.Name) and tgt.id == 'kwargs' and isinstance(v, PyDict): setG(st, kwargs_addr=v.addr, kwargs_updated_with=IntVal(-1))
+            if isinstance(tgt, ast.Name) and tgt.id == FOUND: setG(st, found_exc=to_val(v))
+            if isinstance(tgt, ast.Name) and tgt.id == KWARGS and isinstance(v, PyDict): setG(st, kwargs_addr=v.addr, kwargs_updated_with=IntVal(-1))
             return super().assign(tgt, v, st, k, K)
     def K_(sort, val): return K(sort, val)
     import z3 as _z3
     K = _z3.K
     handlers = {'logger.*': noop, 'asyncio.get_running_loop': opaque('loop'), 'self._prepare_task': noop, 'self.task_signatures.get': h_opaque_get('sig'), 'self.task_hints.get': h_opaque_get('hints'),
                 'self.dependency_graphs.get': h_get_graph, 'parse_params': h_parse_params, 'Context': h_Context, 'dict.update': h_dict_update, 'dict.copy': h_dict_copy, 'dict': h_dict_copy,
-                'dependency_graph.async_ctx': h_async_ctx, 'time': opaque('time'), 'dep_ctx.resolve_kwargs': h_resolve_kwargs, 'asyncio.iscoroutinefunction': h_iscoro,
-                'loop.run_in_executor': h_run_in_executor, 'dict.get': h_dict_get, 'float': h_float, 'asyncio.wait_for': h_wait_for, 'type': opaque('type'), 'dep_ctx.close': h_close,
-                'TaskiqResult': h_TaskiqResult, 'round': opaque('round'), 'maybe_awaitable': h_maybe_awaitable, 'middleware.on_error': h_on_error, '@for': h_for}
-    ex = Ex(handlers); ex.merge = True
+                GRAPH + '.async_ctx': h_async_ctx, 'time': opaque('time'), DEPCTX + '.resolve_kwargs': h_resolve_kwargs, 'asyncio.iscoroutinefunction': h_iscoro,
+                'loop.run_in_executor': h_run_in_executor, 'dict.get': h_dict_get, 'float': h_float, 'asyncio.wait_for': h_wait_for, 'type': opaque('type'), DEPCTX + '.close': h_close,
+                'TaskiqResult': h_TaskiqResult, 'round': opaque('round'), 'maybe_awaitable': h_maybe_awaitable, '*.on_error': h_on_error, '@for': h_for}
+    ex = Ex(handlers); ex.merge = True; ex.inline_scope = (src, REL, 'Receiver')
     st = State(); h = st.heap
     st.env = {'self': PyObj(self_a, 'receiver'), 'target': fresh('target'), 'message': PyObj(msg_a, 'message')}
     st.pc += [Distinct(self_a, msg_a, shared_ctx_a, margs_a, mkw_a, mlabels_a, broker_a), h.next == next0, NMW >= 0] + [And(x < next0, x >= 0) for x in (self_a, msg_a, shared_ctx_a, margs_a, mkw_a, mlabels_a, broker_a)]
-    st.ghost = dict(invokes=IntVal(0), awaited_invoke=IntVal(0), closes=IntVal(0), exec_finished=BoolVal(False), resolve_failed=BoolVal(False), result_built=BoolVal(False), found_exc=Val.none,
+    st.ghost = dict(__i=None, invokes=IntVal(0), awaited_invoke=IntVal(0), closes=IntVal(0), exec_finished=BoolVal(False), resolve_failed=BoolVal(False), result_built=BoolVal(False), found_exc=Val.none,
                     dep_ctx_created=BoolVal(False), timeout_enforced=BoolVal(False), hook_failed=BoolVal(False), close_failed=BoolVal(False), parse_failed=BoolVal(False),
                     fired=K(IntSort(), False), outcome_exc=Val.none, outcome_val=Val.none, timeout_label=Val.none, kwargs_addr=IntVal(-2), kwargs_updated_with=IntVal(-1),
                     cache_addr=IntVal(-1), cache_dval=h.dval[-1], cache_dhas=h.dhas[-1], result_addr=IntVal(-1), __witness=W)
